@@ -326,6 +326,33 @@ pub fn run(run: &mut Run) -> Finish {
             l.case(!orig.is_empty(), h64(&("g3", orig.len(), aset.iter().map(|a| (a.0 .0, a.1 .0)).collect::<Vec<_>>())));
         }
     });
+    // larger maps (anything done per batch of tokens is crossed): n original tokens, 13 per line, and
+    // an adjustment of n tokens in four patterns (shift right, lines moved down, lines in reverse
+    // order, columns of each line in reverse order), distinct positions throughout
+    let big = [17usize, 63, 64, 65, 130];
+    run.par_slice("larger maps: 17/63/64/65/130 original tokens (13 per line) x adjustments of as many tokens in 4 patterns (shift right, lines moved down, line order reversed, column order reversed)", 5, big.len() as u64 * 4, |idx, l| {
+        let k = idx & ((1 << 40) - 1);
+        let (n, pat) = (big[(k / 4) as usize], k % 4);
+        let lines = (n as u32).div_ceil(13);
+        let orig: Vec<Pos> = (0..n as u32).map(|i| (i / 13, 3 * (i % 13) + 1)).collect();
+        let adj: Vec<(Pos, Pos)> = (0..n as u32)
+            .map(|i| {
+                let o = (i / 13, 4 * (i % 13));
+                let nw = match pat {
+                    0 => (o.0, o.1 + 7),
+                    1 => (o.0 + 2, o.1),
+                    2 => (lines - 1 - o.0, o.1),
+                    _ => (o.0, 4 * (12 - i % 13) * 2),
+                };
+                (o, nw)
+            })
+            .collect();
+        let c = Case { orig, adj };
+        if let Some((sig, what)) = check_case(&c) {
+            l.violation(idx, Viol::new(format!("C10/{sig}"), what, json!({"case": serde_json::to_value(&c).unwrap()})));
+        }
+        l.case(true, h64(&("big", n, pat)));
+    });
     // thorough only: the 2x3 grid with exactly four adjustment tokens in every order
     if tier == Tier::Thorough {
         let na4 = n_multisets(at3.len() as u64, 4);
